@@ -25,7 +25,7 @@ func init() {
 		Doc: "capability detection uses the methods' results: IsBool = BoolValued && IsBoolFlag(); DefaultValue = \"\" iff DefaultValued && IsDefault(), else String()", Run: val5})
 	register(&Rule{ID: "VAL-6", Props: []string{"C06"}, Floor: 7,
 		Doc: "each constructor NewX(into, v) stores v to *into and returns into converted", Run: val6})
-	register(&Rule{ID: "VAL-7", Props: []string{"C06", "C02"}, Floor: 6,
+	register(&Rule{ID: "VAL-7", Props: []string{"C06", "C02", "C20"}, Floor: 6,
 		Doc: "multi-valued built-ins: Clear stores nil, Set appends at the end", Run: val7})
 }
 
